@@ -30,13 +30,63 @@ func c14must(errno syscall.Errno, what string) {
 }
 
 // TestVerifC14 runs goom's real WriteTo / PageStart on the operation stream, on a private scratch region.
-func TestVerifC14(t *testing.T) {
+func TestVerifC14(t *testing.T) { c14run(t, false) }
+
+// TestVerifC14WX does the same for `c14.writewx` ops with a W^X kernel policy: a seccomp filter on this (locked) thread
+// refuses every mprotect that asks for write+execute with EACCES, as SELinux execmem / macOS do, so WriteTo takes its
+// fall-back (mwrite_prot.go writeTo).
+func TestVerifC14WX(t *testing.T) { c14run(t, true) }
+
+type c14sockFilter struct {
+	code   uint16
+	jt, jf uint8
+	k      uint32
+}
+type c14sockFprog struct {
+	n    uint16
+	_    [6]byte
+	filt *c14sockFilter
+}
+
+func c14denyWX() error {
+	prog := []c14sockFilter{
+		{0x20, 0, 0, 0},               // A = syscall nr
+		{0x15, 0, 3, 10},              // != mprotect -> allow
+		{0x20, 0, 0, 32},              // A = low word of arg 2 (prot)
+		{0x54, 0, 0, 6},               // A &= PROT_WRITE|PROT_EXEC
+		{0x15, 1, 0, 6},               // == both -> errno
+		{0x06, 0, 0, 0x7fff0000},      // SECCOMP_RET_ALLOW
+		{0x06, 0, 0, 0x00050000 | 13}, // SECCOMP_RET_ERRNO | EACCES
+	}
+	fp := c14sockFprog{n: uint16(len(prog)), filt: &prog[0]}
+	if _, _, e := syscall.Syscall6(syscall.SYS_PRCTL, 38 /*PR_SET_NO_NEW_PRIVS*/, 1, 0, 0, 0, 0); e != 0 {
+		return e
+	}
+	if _, _, e := syscall.Syscall6(syscall.SYS_PRCTL, 22 /*PR_SET_SECCOMP*/, 2 /*FILTER*/, uintptr(unsafe.Pointer(&fp)), 0, 0, 0); e != 0 {
+		return e
+	}
+	return nil
+}
+
+func c14run(t *testing.T, wx bool) {
 	if syscall.Getpagesize() != 4096 {
 		t.Fatalf("page size %d: the model's extern syscall.Getpagesize()=4096 does not hold", syscall.Getpagesize())
 	}
 	runtime.LockOSThread()
 	out := vh.OpenOut()
 	defer out.Close()
+	writeOp := "c14.write"
+	if wx {
+		writeOp = "c14.writewx"
+		if err := c14denyWX(); err != nil {
+			t.Fatalf("cannot install the seccomp W^X filter: %v", err)
+		}
+		// the filter must really be in force, or the lane would silently test the normal path
+		pg, _, _ := syscall.Syscall6(syscall.SYS_MMAP, 0, 4096, syscall.PROT_READ, syscall.MAP_PRIVATE|syscall.MAP_ANON, ^uintptr(0), 0)
+		if _, _, e := syscall.Syscall(syscall.SYS_MPROTECT, pg, 4096, 7); e != syscall.EACCES {
+			t.Fatalf("seccomp W^X filter not in force: mprotect(rwx) = %v", e)
+		}
+	}
 	// reserve guard | region | guard, all PROT_NONE
 	total := uintptr(c14MaxPages+2) * 4096
 	r0, _, e := syscall.Syscall6(syscall.SYS_MMAP, 0, total, syscall.PROT_NONE, syscall.MAP_PRIVATE|syscall.MAP_ANON, ^uintptr(0), 0)
@@ -55,12 +105,12 @@ func TestVerifC14(t *testing.T) {
 		}
 		switch op.Toks[0] {
 		case "c14.ps":
-			if len(op.Toks) != 2 {
+			if len(op.Toks) != 2 || wx {
 				continue
 			}
 			out.Put(op.Idx, "ps=%#x", PageStart(uintptr(vh.U64(op.Toks[1]))))
-		case "c14.write":
-			if len(op.Toks) != 4 {
+		case "c14.write", "c14.writewx":
+			if len(op.Toks) != 4 || op.Toks[0] != writeOp {
 				continue
 			}
 			off := int(vh.U64(op.Toks[1]))
